@@ -140,6 +140,9 @@ func (c *vCtx) Violation(class, cause, config string, history []string, detail s
 }
 
 func (c *vCtx) ViolationCh(class, cause, config string, history []string, choices []int, detail string) {
+	if len(detail) > 3000 {
+		detail = detail[:3000] + " ...(truncated)"
+	}
 	v := &vViolation{Property: c.Prop, Class: class, Cause: cause, Config: config,
 		History: append([]string(nil), history...), Choices: append([]int(nil), choices...), Detail: detail, Shard: c.Shard, Count: 1}
 	sig := v.Sig()
